@@ -243,7 +243,14 @@ func (w *websocketPeer) Close() {
 	// Tell sendHandler to exit and discard any queued messages. Do not close
 	// wr channel in case there are incoming messages during close.
 	w.cancelSender()
-	<-w.writerDone
+	select {
+	case <-w.writerDone:
+	case <-time.After(ctrlTimeout):
+		// sendHandler is blocked writing to a peer that stopped reading.
+		// Only closing the connection ends that write.
+		_ = w.conn.Close()
+		<-w.writerDone
+	}
 	close(w.wr)
 	for range w.wr {
 	}
